@@ -268,15 +268,21 @@ def lean_audit(prop, extra_modules=()):
 
     Returns dict(ok, obligations, discharged, theorems, axioms, problems, log)."""
     mod = "AslModel.Props." + prop
-    props_file = os.path.join(LEAN_DIR, "AslModel", "Props", prop + ".lean")
+    pdir = os.path.join(LEAN_DIR, "AslModel", "Props")
+    props_file = os.path.join(pdir, prop + ".lean")
     res = dict(ok=False, obligations=0, discharged=0, theorems=[], axioms={}, problems=[], log="")
     if not os.path.exists(props_file):
         res["problems"].append("missing " + props_file)
         return res
-    names = theorem_names(props_file)
+    # a property's theorems may be spread over Props/Cxx.lean and Props/Cxx_<part>.lean (one file per modelled part)
+    parts = sorted(f[:-5] for f in os.listdir(pdir) if f.startswith(prop + "_") and f.endswith(".lean"))
+    mods = [mod] + ["AslModel.Props." + x for x in parts]
+    names = []
+    for x in [prop] + parts:
+        names += theorem_names(os.path.join(pdir, x + ".lean"))
     res["theorems"] = names
     res["obligations"] = len(names)
-    ok, out = lean_build([mod] + list(extra_modules))
+    ok, out = lean_build(mods + list(extra_modules))
     res["log"] = out[-6000:]
     if not ok:
         res["problems"].append("lake build %s failed" % mod)
@@ -285,7 +291,7 @@ def lean_audit(prop, extra_modules=()):
         res["problems"] += errs[:20]
         return res
     # forbidden tokens
-    for m, p in lean_sources_of([mod]).items():
+    for m, p in lean_sources_of(mods).items():
         body = strip_lean_comments(open(p).read())
         for i, line in enumerate(body.split("\n")):
             if FORBIDDEN_RE.search(line):
@@ -294,7 +300,8 @@ def lean_audit(prop, extra_modules=()):
     os.makedirs(os.path.join(LEAN_DIR, "Audit"), exist_ok=True)
     af = os.path.join(LEAN_DIR, "Audit", prop + ".lean")
     with open(af, "w") as f:
-        f.write("import %s\n" % mod)
+        for m_ in mods:
+            f.write("import %s\n" % m_)
         for n in names:
             f.write("#print axioms %s\n" % n)
     r = sh(["lake", "env", "lean", af], cwd=LEAN_DIR, timeout=1200)
